@@ -43,6 +43,7 @@ import (
 	"github.com/NethermindEth/juno/core"
 	"github.com/NethermindEth/juno/core/felt"
 	"github.com/NethermindEth/juno/db/memory"
+	"github.com/NethermindEth/juno/l1/eth"
 	"github.com/NethermindEth/juno/starknet"
 	"verif/harness/lib"
 )
@@ -73,6 +74,15 @@ func genPairs(g *lib.ChainGen, version string, k int, events int) ([]core.Transa
 		case events > 0 && len(rc.Events) == 0:
 			from := g.Addr(1)
 			rc.Events = []*core.Event{{From: &from, Keys: []felt.Felt{lib.EventKey(1)}, Data: []felt.Felt{*lib.F(7)}}}
+		}
+		if events > 0 && len(rcs) == 0 && k >= 2 {
+			// round 6: the first receipt of a block "with events" carries TWO messages, the first with a payload of two
+			// felts (the generator itself never draws more than one message per receipt) — messages:boundary-shifted
+			f0, f1 := g.Addr(4), g.Addr(1) // the second sender must fit the 20 bytes of an L1 address
+			rc.L2ToL1Message = []*core.L2ToL1Message{
+				{From: &f0, Payload: []felt.Felt{*lib.F(0x61), *lib.F(0x62)}, To: eth.AddressFromBytes([]byte{0x10, 1})},
+				{From: &f1, Payload: []felt.Felt{*lib.F(0x63)}, To: eth.AddressFromBytes([]byte{0x10, 2})},
+			}
 		}
 		txs = append(txs, tx)
 		rcs = append(rcs, rc)
@@ -351,6 +361,13 @@ func runBodyLenOn(f lib.Flags, res *lib.Result, only *replay, dstNew bool, custo
 			headNumber, headHash = uint64(pos-1), g.Bundles[pos-1].Block.Hash
 		}
 		cases := bodyLenCases(g, pos, format)
+		for _, tc := range compensatingCases(g, pos) { // round 6: compensating tamperings on every format / shape / empty diff
+			e := "reject"
+			if !tc.MustReject {
+				e = ""
+			}
+			cases = append(cases, netCase{tc: tc, expect: e})
+		}
 		if drv != nil {
 			blocks := []*core.Block{valid.Block}
 			for _, nc := range cases {
@@ -387,10 +404,13 @@ func runBodyLenOn(f lib.Flags, res *lib.Result, only *replay, dstNew bool, custo
 				rp.Note = trunc(r.stack, 1200)
 				res.Violate(lib.Violation{Sig: "store-panics:" + tc.Name, What: fmt.Sprintf("SanityCheckNewHeight/Store panics (%s, %s backend): %v", rp.Detail, backend, r.err), Replay: rp})
 			case r.err == nil && nc.expect == "reject":
-				res.Violate(lib.Violation{Sig: "tampered-block-accepted:" + tc.Name,
-					What: fmt.Sprintf("a block that keeps the header of valid block %d — declared hash, TransactionCount and EventCount included — but has a body of another length was stored: "+
-						"the hash check did not look at the content (%s; %s backend)", pos, rp.Detail, backend),
-					Replay: rp})
+				what := fmt.Sprintf("a block that keeps the header of valid block %d — declared hash, TransactionCount and EventCount included — but has a body of another length was stored: "+
+					"the hash check did not look at the content (%s; %s backend)", pos, rp.Detail, backend)
+				if strings.HasPrefix(tc.Name, "compound:") {
+					what = fmt.Sprintf("a block that differs from valid block %d in committed content — fields changed together so that a summary (sum of counts, Length() of the diff, "+
+						"set of declared classes, number of messages) stays the same — was stored (%s; %s backend)", pos, rp.Detail, backend)
+				}
+				res.Violate(lib.Violation{Sig: "tampered-block-accepted:" + tc.Name, What: what, Replay: rp})
 			case r.err != nil && nc.expect == "accept":
 				res.Mismatch(lib.Mismatch{Sig: "exception-is-committed:body-length:" + format + ":" + tc.Name, Input: rp.Detail,
 					Model: "not committed by this format / inside the unverifiable range", Impl: "rejected: " + class})
